@@ -1,31 +1,86 @@
 #!/usr/bin/env python3
-"""For every seeded change under /verif/seeded/<name>/patch.diff: apply it to /repo, run the
-quick checks (all, or those given), record which report a violation, revert. Writes
-seeded/MATRIX.json. /repo must be clean."""
-import json, os, subprocess, sys, glob
-ROOT='/verif'
-def sh(*a, **k): return subprocess.run(*a, shell=True, capture_output=True, text=True, **k)
-assert sh('git -C /repo status --porcelain').stdout.strip()=='' , 'repo not clean'
-checks=[f'C{i:02d}' for i in range(1,21)]
-only=sys.argv[1:]
-seeds=sorted(glob.glob(f'{ROOT}/seeded/*/patch.diff'))
-mpath=f'{ROOT}/seeded/MATRIX.json'
-matrix=json.load(open(mpath)) if os.path.exists(mpath) else {}
-for pd in seeds:
-    name=os.path.basename(os.path.dirname(pd))
-    if only and name not in only: continue
-    r=sh(f'git -C /repo apply {pd}')
-    if r.returncode!=0:
-        print(name,'patch does not apply:',r.stderr[:200]); continue
-    row={}
-    try:
-        for c in checks:
-            o=sh(f'cd {ROOT} && ./check {c} --tier quick')
-            keys=[l.split('key:',1)[1].strip() for l in o.stdout.splitlines() if l.strip().startswith('key:')]
-            row[c]={'exit':o.returncode,'keys':keys[:6]}
-            print(name,c,o.returncode,keys[:2],flush=True)
-    finally:
-        sh('git -C /repo checkout -- .')
-    matrix[name]=row
-    json.dump(matrix,open(mpath,'w'),indent=1)
-print('done')
+"""Which quick checks report which seeded change.
+
+Works on an ISOLATED copy: /tmp/mx/verif (a copy of /verif), /tmp/mx/repo (a scratch worktree
+of /repo's HEAD), own target directories — so it can run in the background without touching
+/repo, /verif/evidence or /verif/target. For every seeded/<name>/patch.diff: apply to the
+scratch repo, run the quick checks of the seed's family (or all with --all), record exit code
+and violated keys, revert. Result: /verif/seeded/MATRIX.json (+ MATRIX.md).
+usage: seed_matrix.py [--all] [seed names...]"""
+import json, os, subprocess, sys, glob, shutil
+MX='/tmp/mx'
+def sh(cmd, **k): return subprocess.run(cmd, shell=True, capture_output=True, text=True, **k)
+FAMILY={
+ 'sup':['C04','C06','C07','C09','C10','C05','C08','C18'],
+ 'lib':['C01','C02','C13','C15','C05','C08'],
+ 'cli':['C05','C08','C12','C18'],
+ 'ign':['C03','C14','C11','C12'],
+ 'glob':['C11','C12'],
+ 'ev':['C16','C19','C17'],
+ 'sig':['C19','C16','C06'],
+ 'paths':['C17'],
+ 'orig':['C20','C12'],
+}
+def family(patch):
+    t=open(patch).read()
+    f=set()
+    if 'crates/supervisor' in t: f|=set(FAMILY['sup'])
+    if 'crates/lib/src/paths' in t: f|=set(FAMILY['paths'])
+    elif 'crates/lib' in t: f|=set(FAMILY['lib'])
+    if 'crates/cli' in t: f|=set(FAMILY['cli'])
+    if 'crates/ignore-files' in t: f|=set(FAMILY['ign'])
+    if 'crates/filterer' in t: f|=set(FAMILY['glob'])
+    if 'crates/events' in t: f|=set(FAMILY['ev'])
+    if 'crates/signals' in t: f|=set(FAMILY['sig'])
+    if 'crates/project-origins' in t: f|=set(FAMILY['orig'])
+    return sorted(f)
+def setup():
+    if os.path.isdir(f'{MX}/repo'):
+        sh(f'git -C /repo worktree remove --force {MX}/repo')
+    shutil.rmtree(MX, ignore_errors=True)
+    os.makedirs(MX)
+    r=sh(f'git -C /repo worktree add -q {MX}/repo HEAD'); assert r.returncode==0, r.stderr
+    sh(f"rsync -a --exclude 'target*' --exclude work --exclude replays --exclude .git /verif/ {MX}/verif/")
+    sh(f"sed -i 's#/repo/#{MX}/repo/#g' {MX}/verif/engine/*/Cargo.toml {MX}/verif/loomleg/gen_flag.py")
+    sh(f"sed -i 's#target-dir = .*#target-dir = \"{MX}/target\"#' {MX}/verif/engine/.cargo/config.toml")
+    sh(f"sed -i 's#target-dir = .*#target-dir = \"{MX}/target-loom\"#' {MX}/verif/loomleg/.cargo/config.toml")
+ENV=dict(os.environ, VERIF_TARGET_DIR=f'{MX}/target', VERIF_LOOM_TARGET=f'{MX}/target-loom', LOOMLEG_SRC=f'{MX}/repo/crates/supervisor/src/flag.rs')
+def main():
+    args=sys.argv[1:]
+    allchecks='--all' in args
+    only=[a for a in args if not a.startswith('--')]
+    setup()
+    seeds=sorted(glob.glob('/verif/seeded/*/patch.diff'))
+    mpath='/verif/seeded/MATRIX.json'
+    matrix=json.load(open(mpath)) if os.path.exists(mpath) else {}
+    for pd in seeds:
+        name=os.path.basename(os.path.dirname(pd))
+        if only and name not in only: continue
+        if not only and name in matrix and not allchecks: continue
+        r=sh(f'git -C {MX}/repo apply {pd}')
+        if r.returncode!=0:
+            print(name,'patch does not apply:',r.stderr[:200]); continue
+        checks=[f'C{i:02d}' for i in range(1,21)] if allchecks else family(pd)
+        own=name.split('-')[0]
+        if own not in checks: checks.append(own)
+        row=matrix.get(name,{})
+        try:
+            for c in sorted(checks):
+                o=subprocess.run(f'cd {MX}/verif && ./check {c} --tier quick', shell=True, capture_output=True, text=True, env=ENV)
+                keys=[l.split('key:',1)[1].strip() for l in o.stdout.splitlines() if l.strip().startswith('key:')]
+                row[c]={'exit':o.returncode,'keys':keys[:5]}
+                print(name,c,o.returncode,keys[:2],flush=True)
+        finally:
+            sh(f'git -C {MX}/repo checkout -- .')
+        matrix[name]=row
+        json.dump(matrix,open(mpath,'w'),indent=1,sort_keys=True)
+    # markdown summary
+    with open('/verif/seeded/MATRIX.md','w') as f:
+        f.write('| seed | quick checks that report a violation | ran without violation |\n|---|---|---|\n')
+        for name in sorted(matrix):
+            hit=[c for c,v in sorted(matrix[name].items()) if v['exit']==1]
+            ok=[c for c,v in sorted(matrix[name].items()) if v['exit']==0]
+            other=[f"{c}(exit {v['exit']})" for c,v in sorted(matrix[name].items()) if v['exit'] not in (0,1)]
+            f.write(f"| {name} | {' '.join(hit)} | {' '.join(ok+other)} |\n")
+    print('done')
+main()
